@@ -628,8 +628,8 @@ func checkCookie(cc *cookieCase) string {
 	return ""
 }
 
-// "": the nameless cookie of the SetCookie documentation ("Set-Cookie: hertz; max-age=10; ..."); a nameless cookie
-// whose value contains '=' cannot be told from a named one and is skipped
+// "": the nameless cookie of the SetCookie documentation ("Set-Cookie: hertz; max-age=10; ..."); when its value
+// contains '=' (base64 padding, "a=b") the written form has to keep it apart from a named one ("=a=b")
 var cookieKeys = []string{"", "k", "session_id", "a-b.c", "A1", "__Host-x", "!#$%&'*+-.^_`|~"}
 
 // "a ", " a", "\"abc\"": values the setter accepts (its validity table has no complaint) whose outer space or
@@ -648,7 +648,7 @@ func TestC17CookieExhaustive(t *testing.T) {
 	expires := []int64{0, 1, 86400 * 365 * 30, 253402300799, 1257894000}
 	for _, k := range cookieKeys {
 		for _, v := range cookieValues {
-			if k == "" && (strings.Contains(v, "=") || v == "") {
+			if k == "" && v == "" {
 				continue
 			}
 			for _, d := range cookieDomains {
